@@ -84,6 +84,24 @@ def strategy(tier):
     @st.composite
     def history(draw):
         spec = draw(SPEC)
+        huge = None
+        fam0 = spec["fams"][0]
+        if len(fam0["sizes"]) >= 3 and draw(convgen.INT10) < 2:
+            # one unit 2.5e200 times another: squaring that ratio overflows, so a query over the
+            # squares *raises* (OverflowError, in any process) from inside the planning of a
+            # conversion.  What is asked afterwards must not notice.
+            n = len(fam0["sizes"])
+            j = draw(synth._int(0, n - 2))
+            fam0["sizes"][n - 1] = [fam0["sizes"][j][0] * 25 * 10**199, fam0["sizes"][j][1]]
+            fam0["edges"] = [e for e in fam0["edges"] if n - 1 not in (e[0], e[1])] + [[n - 1, j, "", False, False]]
+            spec["twins"], spec["echoes"] = [], []
+            for x in spec["ext"]:   # areas and volumes are not built on the huge unit
+                if x["base"] == n - 1:
+                    x["base"] = j
+                if x.get("also") == n - 1:
+                    x["also"] = None
+            tag = fam0["dim"][0].upper()
+            huge = (f"{tag}{n - 1}", f"{tag}{j}")
         ndecl = sum(len(f["edges"]) for f in spec["fams"]) + sum(1 + (1 if (e["also"] is not None and e["also"] != e["base"]) else 0) for e in spec["ext"])
 
         def query():
@@ -108,6 +126,17 @@ def strategy(tier):
                 steps.insert(draw(synth._int(i + 1, pos)), ["query", dict(final)])
         flat = [(f["dim"][0].upper(), e) for f in spec["fams"] for e in f["edges"]]
         how = draw(convgen.INT10)
+        echoes = [e for e in spec.get("echoes", []) if isinstance(e, list) and len(e) == 4]
+        if echoes and how >= 5 and draw(convgen.INT10) < 7:
+            # two declarations with one and the same ratio: the first pair is asked about (at a
+            # power), then the second pair at the same power is the final query
+            a, b, i2, j2 = synth._choose(draw, echoes)
+            e = draw(st.sampled_from([2, 3, -1, -2, 2]))
+            mg = draw(MAG)
+            rev = draw(st.booleans())
+            first = {"src": [["", b if rev else a, e]], "dst": [["", a if rev else b, e]], "mag": mg, "kind": "in_unit"}
+            final = {"src": [["", j2 if rev else i2, e]], "dst": [["", i2 if rev else j2, e]], "mag": mg, "kind": "in_unit"}
+            steps.append(["query", first])
         if flat and how < 5:
             # the history asks about exactly the pair of a declaration right before it is made (no
             # route yet, as a rule) and again right after it, in one direction only -- for one
@@ -122,6 +151,30 @@ def strategy(tier):
                 if how < 2 or draw(st.booleans()):
                     steps.insert(at + 1, ["query", dict(final)])
                 steps.insert(at, ["query", dict(final)])
+        if huge is not None:
+            names0 = sorted(n_ for n_, (d_, k_) in synth.unit_names(spec).items() if d_ == fam0["dim"] and k_ == 1 and n_ not in huge)
+            far = synth._choose(draw, names0) if names0 else huge[1]
+            e = draw(st.sampled_from([2, 3, 2]))
+            steps.append(["query", {"src": [["", huge[0], e]], "dst": [["", far, e]], "mag": draw(MAG), "kind": "in_unit"}])
+            if draw(st.booleans()):
+                final = {"src": [["", huge[1], 1]], "dst": [["", far, 1]], "mag": draw(MAG), "kind": draw(st.sampled_from(["in_unit", "add", "eq"]))}
+        if spec["ext"] and not any(s_[0] == "redecl" for s_ in steps) and draw(convgen.INT10) < 3:
+            # an area/volume unit defined as a power of a length is re-declared with another
+            # value; conversions that take such a unit apart (X/T -> L^k/T) are asked before and
+            # after, next to the direct one
+            x = draw(synth._int(0, len(spec["ext"]) - 1))
+            idx = len(flat) + sum(1 + (1 if (e_["also"] is not None and e_["also"] != e_["base"]) else 0) for e_ in spec["ext"][:x])
+            ext = spec["ext"][x]
+            tag0, tag1 = spec["fams"][0]["dim"][0].upper(), spec["fams"][1]["dim"][0].upper()
+            base = f"{tag0}{ext['base']}"
+            apart = {"src": [["", f"X{x}", 1], ["", f"{tag1}0", -1]], "dst": [["", base, ext["k"]], ["", f"{tag1}0", -1]], "mag": draw(MAG), "kind": "in_unit"}
+            direct = {"src": [["", f"X{x}", 1]], "dst": [["", base, ext["k"]]], "mag": draw(MAG), "kind": "in_unit"}
+            if ["decl", idx] in steps:
+                at = steps.index(["decl", idx])
+                steps.insert(at + 1, ["query", dict(apart)])
+                steps.append(["redecl", idx, draw(st.sampled_from([[4, 1], [1, 2], [3, 1]]))])
+                steps.append(["query", dict(direct)])
+                final = dict(apart)
         names = synth.unit_names(spec)
 
         def other_unit(u):
@@ -222,6 +275,8 @@ def _same(r1, r2, tol=1e-12):
     if r1[0] == "v":
         if r1[2] != r2[2]:
             return False
+        if type(r1[1]) is not type(r2[1]):
+            return False  # int / float / Decimal: the type of a result is part of the outcome
         try:
             x, y = Fraction(r1[1]), Fraction(r2[1])
         except (ValueError, OverflowError):
